@@ -4,7 +4,7 @@
    C09 as a whole ("for every room in the envelope the pipeline returns the truth within 1 mm / 1 mrad, unlinked
    systems raise") depends on IPPE (SVD), the mirror vote, an eigen-decomposition and scipy.least_squares; none of
    these has a Gallina model here.  Shape of the full statement, over an arbitrary pipeline function: *)
-From CF Require Import Common.Bytes C09.Model C09.Proofs_matcher C09.Proofs_link C09.Proofs_est C09.Gen_Matcher C09.GenTie C09.Vote C09.Proofs_vote C09.Pure C09.Proofs_pure.
+From CF Require Import Common.Bytes C09.Model C09.Proofs_matcher C09.Proofs_link C09.Proofs_est C09.Gen_Matcher C09.GenTie C09.Vote C09.Proofs_vote C09.Pure C09.Proofs_pure C09.Decide C09.Proofs_decide.
 Open Scope Z_scope.
 
 Definition C09_full {Room Answer : Type} (in_envelope linked : Room -> Prop) (pipeline : Room -> option Answer)
@@ -174,3 +174,88 @@ Theorem C09_shared_scratch_refuted :
     result (fst (run_alone (cell_estimate find pick) (start i1) None)) = Some (pick i1 (find i1)).
 Proof. exact shared_scratch_refuted. Qed.
 Print Assumptions C09_shared_scratch_refuted.
+
+(* ================= the estimator's DECISION logic between the numeric kernels (model C09/Decide.v + Vote.v) =========
+   Kernels are parameters with contracts: IPPE = the candidate poses carried by each sample; distances [dist] with the
+   strict test [dlt]; [mean] = np.mean with the contract "the mean of candidates that are all true (within eps of the
+   truth) is true" (convexity of the eps-ball); nothing is assumed about the number of samples or stations. *)
+
+(* ---- the bucket vote for one station pair.  IF all true candidates fall into one bucket h (e.g. they are within
+        accept_radius of the first sample's true candidate and of no earlier reference) AND every bucket that holds a
+        non-true candidate holds strictly fewer candidates than bucket h (counting premise), THEN the vote returns
+        exactly the bucket of the true candidates, and its mean is true. *)
+Theorem C09_vote_sufficient_partial :
+  forall (P : Type) (near : P -> P -> bool) (mean : list P -> P) (istrue : P -> Prop),
+    (forall p, istrue p \/ ~ istrue p) ->
+    (forall l, l <> [] -> Forall istrue l -> istrue (mean l)) ->
+    forall (refs : list P) (rest : list (list P)) (h : nat),
+      let pls := refs :: rest in
+      let all := concat pls in
+      (h < 4)%nat ->
+      (forall c, In c all -> istrue c -> first_near near c refs O = Some h) ->
+      (exists c, In c all /\ istrue c) ->
+      (forall i, (i < 4)%nat -> (exists c, In c (bucket_of near refs all i) /\ ~ istrue c) ->
+                 (length (bucket_of near refs all i) < length (bucket_of near refs all h))%nat) ->
+      vote near pls = bucket_of near refs all h /\ Forall istrue (vote near pls) /\ istrue (mean (vote near pls)).
+Proof. exact (@vote_correct). Qed.
+Print Assumptions C09_vote_sufficient_partial.
+
+(* ---- _choose_solutions.  IF a true pair is among the candidates, every true pair is strictly nearer to the voted
+        position than every non-true pair, and true pairs pass the outlier test, THEN the call succeeds and returns a
+        true pair (first strict minimum, as the code breaks ties). *)
+Theorem C09_choose_sufficient_partial :
+  forall (P D G : Type) (dist : P -> P -> D) (dlt : D -> D -> bool) (outlier maxd : D) (rel : G -> G -> P) (g0 : G),
+    (forall a, dlt a a = false) -> (forall a b c, dlt a b = true -> dlt b c = true -> dlt a c = true) ->
+    forall (ptrue : G * G -> Prop), (forall c, ptrue c \/ ~ ptrue c) ->
+    forall (e : P) (s1s s2s : list G),
+      (exists c, In c (pairs s1s s2s) /\ ptrue c /\ dlt (dd dist rel e c) maxd = true) ->
+      (forall c c', In c (pairs s1s s2s) -> In c' (pairs s1s s2s) -> ptrue c -> ~ ptrue c' ->
+                    dlt (dd dist rel e c) (dd dist rel e c') = true) ->
+      (forall c, In c (pairs s1s s2s) -> ptrue c -> dlt outlier (dd dist rel e c) = false) ->
+      fst (choose dist dlt outlier maxd rel g0 e s1s s2s) = true /\
+      ptrue (snd (choose dist dlt outlier maxd rel g0 e s1s s2s)) /\
+      In (snd (choose dist dlt outlier maxd rel g0 e s1s s2s)) (pairs s1s s2s).
+Proof. exact (@choose_correct). Qed.
+Print Assumptions C09_choose_sufficient_partial.
+
+(* ---- _angles_to_poses for one sample: IF for every other station of the sample the choice against the voted position
+        succeeds with true poses, THEN the sample is kept, every pose stored is a true one, and the stored stations are
+        exactly the sample's stations (none when the sample has a single station). *)
+Theorem C09_angles_to_poses_sufficient_partial :
+  forall (P D G : Type) (dist : P -> P -> D) (dlt : D -> D -> bool) (radius outlier maxd : D) (mean : list P -> P)
+         (rel : G -> G -> P) (g0 : G) (gtrue : Z -> G -> Prop) (ss : list (@dsample G)) (s : @dsample G) first others,
+    sort_ids (keys s) = first :: others ->
+    (forall o, In o others -> pair_ok dist dlt radius outlier maxd mean rel g0 gtrue ss s first o) ->
+    exists res, a2p_sample dist dlt radius outlier maxd mean rel g0 ss s = Some res /\
+      (forall k g, In (k, g) res -> gtrue k g) /\
+      (forall k, In k (keys res) <-> (others <> [] /\ In k (keys s))).
+Proof. exact (@a2p_sample_correct). Qed.
+Print Assumptions C09_angles_to_poses_sufficient_partial.
+
+(* ---- traversal: together with C09_linkage_decision_partial (every station reachable through shared samples gets a
+        pose, unlinkable systems take the error path) each station gets its pose exactly once *)
+Theorem C09_linkage_exactly_once_partial :
+  forall (G : Type) (op : G -> G -> G) (inv : G -> G) (avg : list G -> G) (choose : list Z -> Z),
+    (forall l, l <> [] -> In (choose l) l) ->
+    forall (ss : list (@psample G)) (bp0 bp : list (Z * G)),
+      NoDup (keys bp0) -> estimate_remaining op inv avg choose ss bp0 = LOk bp -> NoDup (keys bp).
+Proof. exact (@estimate_remaining_nodup). Qed.
+Print Assumptions C09_linkage_exactly_once_partial.
+
+(* ---- the premise fails, and the vote picks a wrong bucket, on: F09b (polluted bucket), F09e (two mirror families
+        coincide, two votes per sample, the unmixed true bucket loses), near-coincident stations (one bucket) *)
+Theorem C09_vote_premise_fails_F09b_refuted :
+  premise_fails cfg_f09b 0 0 /\ vote near80 cfg_f09b = [0; 30; 0; 45; 0; 20].
+Proof. exact f09b_config. Qed.
+Print Assumptions C09_vote_premise_fails_F09b_refuted.
+
+Theorem C09_vote_premise_fails_F09e_refuted :
+  premise_fails cfg_f09e 0 0 /\ vote near80 cfg_f09e = [200; 210; 195; 205; 204; 199] /\
+  bucket_of near80 [0; 200; 210; 410] (concat cfg_f09e) 0 = [0; 0; 0].
+Proof. exact f09e_config. Qed.
+Print Assumptions C09_vote_premise_fails_F09e_refuted.
+
+Theorem C09_vote_premise_fails_near_coincident_refuted :
+  premise_fails cfg_coincident 20 0 /\ vote near80 cfg_coincident = [20; 12; -15; -23; 20; 9; -22; -33].
+Proof. exact coincident_config. Qed.
+Print Assumptions C09_vote_premise_fails_near_coincident_refuted.
